@@ -84,6 +84,9 @@ def set : HS → List Bool → HS → HS
 
 end HS
 
+inductive Kind | cell | surface | material | universe | transform
+  deriving DecidableEq, Repr
+
 structure CellSt where
   geom : Option HS := none
   /-- `cell.surfaces._objects` -/
@@ -127,6 +130,11 @@ structure St where
   /-- the materials / transforms that are in `problem.data_inputs` (what `write_to_file` iterates) -/
   dataM : List ObjId
   dataT : List ObjId
+  /-- the object came into the pool linked to ANOTHER problem (a `copy.deepcopy` of a member drags a hidden copy
+      of the whole problem along; an object that is or was a member of a second problem).  Static: no modelled
+      operation links anything to another problem; the flag only matters while the object is not linked to this
+      problem (see `St.linkOf`). -/
+  other : Kind → ObjId → Bool
 
 abbrev Res := St × Option Err
 
@@ -363,9 +371,6 @@ def claim (st : St) (u : ObjId) (cs : List ObjId) : Res :=
 def setFill (st : St) (c : ObjId) (u : Option ObjId) : Res :=
   (st.updCell c (fun cs => { cs with fill := u }), none)
 
-inductive Kind | cell | surface | material | universe | transform
-  deriving DecidableEq, Repr
-
 def St.members (st : St) : Kind → List ObjId
   | .cell => st.cells | .surface => st.surfaces | .material => st.materials
   | .universe => st.universes | .transform => st.transforms
@@ -377,6 +382,15 @@ def St.num (st : St) : Kind → ObjId → Int
 def St.linked (st : St) : Kind → ObjId → Bool
   | .cell => fun c => (st.cellOf c).link | .surface => st.slink | .material => st.mlink
   | .universe => st.ulink | .transform => st.tlink
+
+/-- which problem an object's `_problem` points at -/
+inductive PId | here | elsewhere
+  deriving DecidableEq, Repr
+
+/-- `obj._problem`: this problem when the object has been linked to it (whatever it was linked to before:
+    linking *re-links*), else the other problem it came with, else nothing -/
+def St.linkOf (st : St) (k : Kind) (o : ObjId) : Option PId :=
+  if st.linked k o then some .here else if st.other k o then some .elsewhere else none
 
 def St.setMembers (st : St) (k : Kind) (l : List ObjId) : St :=
   match k with
@@ -419,6 +433,30 @@ def collRemove (st : St) (k : Kind) (o : ObjId) : Res :=
   match indexOfEq (fun a b => a == b) o (st.members k) with
   | none => (st, some .valueError)
   | some x => (st.setMembers k ((st.members k).erase x), none)
+
+/-- numbered_object_collection.py:extend and __iadd__ with a list: every new object is checked against the members
+    and against the ones before it in the list (`NumberConflictError`, nothing changed), then all are appended and
+    linked to the problem (for a cell: cell.py:Cell.link_to_problem) -/
+def collExtend (st : St) (k : Kind) (os : List ObjId) : Res :=
+  if ((st.members k ++ os).map (st.num k)).Nodup then
+    (os.foldl (fun s o => s.setLinked k o) (st.setMembers k (st.members k ++ os)), none)
+  else (st, some .numberConflict)
+
+/-- `while number in self.numbers: number += 1` of numbered_object_collection.py:request_number -/
+def freeNumber (nums : List Int) : Nat → Int → Int
+  | 0, n => n
+  | fuel + 1, n => if nums.contains n then freeNumber nums fuel (n + 1) else n
+
+/-- numbered_object_collection.py:append_renumber (step 1): a member is left alone; otherwise the object is
+    linked first, then appended, on a number conflict it is renumbered to the next free number and appended -/
+def appendRenumber (st : St) (k : Kind) (o : ObjId) : Res :=
+  if (st.members k).contains o then (st, none)
+  else
+    let st1 := st.setLinked k o
+    if (st1.members k).any (fun x => st1.num k x == st1.num k o) then
+      let n := freeNumber ((st1.members k).map (st1.num k)) ((st1.members k).length + 1) (st1.num k o)
+      if n ≤ 0 then (st1, some .valueError) else collAppend (st1.setNum k o n) k o
+    else collAppend st1 k o
 
 /-- mcnp_problem.py:materials.setter with a list (repaired code: collection and members are linked);
     `data_inputs` is not touched -/
@@ -582,10 +620,10 @@ def appendAll (k : Kind) : List ObjId → St → Res
 /-- The object pool before anything is read: numbers and shapes of every object that will ever exist
     in the case, nothing linked, empty problem. -/
 def St.blank (cnum snum mnum unum tnum : ObjId → Int)
-    (strans : ObjId → Option ObjId) : St :=
+    (strans : ObjId → Option ObjId) (other : Kind → ObjId → Bool := fun _ _ => false) : St :=
   { cellOf := fun _ => {}, cnum, snum, mnum, unum, tnum, strans,
     slink := fun _ => false, mlink := fun _ => false, ulink := fun _ => false, tlink := fun _ => false,
-    cells := [], surfaces := [], materials := [], universes := [], transforms := [], dataM := [], dataT := [] }
+    cells := [], surfaces := [], materials := [], universes := [], transforms := [], dataM := [], dataT := [], other }
 
 /-- mcnp_problem.py:parse_input as far as links go: every object is linked and appended to its collection
     (cells `0..`, surfaces, materials and transforms in file order; materials and transforms also go to
@@ -653,6 +691,8 @@ inductive Op
   | setNumber (k : Kind) (o : ObjId) (n : Int)
   | append (k : Kind) (o : ObjId)
   | remove (k : Kind) (o : ObjId)
+  | extend (k : Kind) (os : List ObjId)
+  | appendRenumber (k : Kind) (o : ObjId)
   | setMaterials (ms : List ObjId)
   | setCells (cs : List ObjId)
   | addCellChildren
@@ -672,6 +712,8 @@ def step (st : St) : Op → Res
   | .setNumber k o n => setNumber st k o n
   | .append k o => collAppend st k o
   | .remove k o => collRemove st k o
+  | .extend k os => collExtend st k os
+  | .appendRenumber k o => appendRenumber st k o
   | .setMaterials ms => setMaterials st ms
   | .setCells cs => setCells st cs
   | .addCellChildren => addCellChildren st
